@@ -7,6 +7,7 @@ import (
 	"bytes"
 	"crypto/tls"
 	"encoding/binary"
+	"math"
 
 	dtlserrors "github.com/pion/dtls/v3/internal/errors"
 	"github.com/pion/dtls/v3/pkg/crypto/hash"
@@ -47,6 +48,9 @@ func (m *MessageCertificateVerify) Marshal() ([]byte, error) {
 		return nil, dtlserrors.ErrInvalidSignHashAlgorithm
 	}
 
+	if len(m.Signature) > math.MaxUint16 {
+		return nil, dtlserrors.ErrVectorTooLong
+	}
 	out := make([]byte, 1+1+2+len(m.Signature))
 
 	copy(out, alg.Marshal())
